@@ -45,6 +45,10 @@ def call(ex, f: VLib, args, kwargs, fr):
     name = f.name
     if name.startswith("repo:"):
         raise Unsupported(f"call of module {name}")
+    for prefix, ph in ex.cfg.lib_prefix.items():
+        if name.startswith(prefix):
+            ex.lib_used.add(prefix + "* (boundary)")
+            return ph(ex, f, args, kwargs, fr)
     h = HANDLERS.get(name)
     if h is not None:
         ex.lib_used.add(name)
@@ -165,6 +169,8 @@ def opaque_attr(ex, obj: VOpaque, name, fr):
 
 
 def opaque_setattr(ex, obj, name, val, fr):
+    if obj.kind == "ignore":
+        return None
     h = ex.cfg.lib_overrides.get(("opaque_setattr", obj.kind))
     if h is not None:
         return h(ex, obj, name, val, fr)
@@ -458,6 +464,10 @@ def as_seq(ex, v, fr):
     """View a value as VSeq if it has symbolic length, else concrete list."""
     if isinstance(v, VSeq):
         return v
+    if ex.is_arr(v):
+        c = ex.st.cell(v)
+        if len(c.shape) == 1 and not is_conc(c.shape[0]):
+            return VSeq(z_int(c.shape[0]), lambda i, c=c: c.elem((i,)), None, "list")
     if isinstance(v, VRange) and not (is_conc(int_of(v.lo)) and is_conc(int_of(v.hi))):
         lo, hi = z_int(int_of(v.lo)), z_int(int_of(v.hi))
         return VSeq(z3.If(hi > lo, hi - lo, 0), lambda i: VInt(lo + i), None, "list")
